@@ -248,7 +248,7 @@ func coverCheck(obs []*Oblig, pres map[*Exec][2]string, timeoutS int, dir string
 	}
 	last := map[key]*Oblig{}
 	for _, o := range obs {
-		if o.ex == nil {
+		if o.ex == nil || o.MaybeDead {
 			continue
 		}
 		k := key{o.ex, o.Reach}
@@ -279,9 +279,27 @@ func coverCheck(obs []*Oblig, pres map[*Exec][2]string, timeoutS int, dir string
 			file := filepath.Join(dir, fmt.Sprintf("cover%d.smt2", i))
 			os.WriteFile(file, []byte(b.String()), 0o644)
 			r := race(file, timeoutS, false, []solverSpec{solvers[0], solvers[1]})
+			isVac := r.Status == "unsat"
+			if isVac && o.StartCut >= 0 {
+				// a branch that is already impossible where its block begins is dead code under the
+				// contract (e.g. a loop's condition-exit that its invariant excludes), not a
+				// contradiction introduced by an assumption inside the block
+				var b2 strings.Builder
+				b2.WriteString(pres[o.ex][0])
+				for _, l := range o.ex.e.lines[:o.StartCut] {
+					b2.WriteString(l)
+					b2.WriteByte('\n')
+				}
+				fmt.Fprintf(&b2, "(assert %s)\n(check-sat)\n", o.Reach)
+				file2 := filepath.Join(dir, fmt.Sprintf("cover%d.start.smt2", i))
+				os.WriteFile(file2, []byte(b2.String()), 0o644)
+				if r2 := race(file2, timeoutS, false, []solverSpec{solvers[0], solvers[1]}); r2.Status == "unsat" {
+					isVac = false
+				}
+			}
 			mu.Lock()
 			checked++
-			if r.Status == "unsat" {
+			if isVac {
 				vacuous = append(vacuous, o.Name)
 			}
 			mu.Unlock()
